@@ -213,6 +213,8 @@ def check_scenarios(prop, tier):
             res.sample({'tree0': {p: (f['cells'] if f['ex'] else None) for p, f in sc0[0]['tree0'].items()},
                         'series': [{'reverse': pt.get('rev', False), 'fps': [(fp['kind'], fp['old'], fp['new'], 'ren' if fp['ren'] else '', fp['hunks'] or fp['to'] or fp['from']) for fp in pt['fps']]} for pt in sc0[0]['series']],
                         'cfg': sc0[1], 'reference': {k: sc0[2][k] for k in ('k', 'exit', 'rejects', 'backups')}})
+        if prop == 'C13':
+            rej_shapes(res, tier, rnd)
         res.cov['traces_validated_against_impl'] += total_runs
         res.cov['evaluations'] += total_runs
         res.cov['distinct_nontrivial'] += total_runs // 2
@@ -596,6 +598,121 @@ def check_c14(prop, tier):
     res.cov['rule'] = ('stratified sample of TLC-enumerated scenarios plus special workspaces (zero-length source, zero-length patch file, empty series, nothing to do), each pushed with 9 option variants '
                        '(-q baseline, none, --mmap, -v, -vv, --color always, --stats, -A multiapply, all together); snapshots and exit status must be pairwise identical and the baseline equal to the reference Outcome')
     return res
+
+
+# ---------------------------------------------------------------------------------------------
+# C13: shapes of failing hunks below the cell abstraction (the writer re-derives the layout of a hunk from its two
+# sides: long runs of removed / added lines, shared lines inside the change, missing final newlines)
+def rej_sides(hunk):
+    """Independent reader of one hunk text: (old start, old count, new start, new count, old side, new side)."""
+    lines = hunk.split(b'\n')
+    m = re.match(rb'@@ -(\d+)(?:,(\d+))? \+(\d+)(?:,(\d+))? @@', lines[0])
+    if not m:
+        return None
+    old, new, last = [], [], None
+    body = hunk[len(lines[0]) + 1:]
+    for l in body.splitlines(True) if b'\r' not in body and b'\x0c' not in body else [x + b'\n' for x in body.split(b'\n')[:-1]]:
+        c, rest = l[:1], l[1:]
+        if c == b' ':
+            old.append(rest); new.append(rest); last = 'b'
+        elif c == b'-':
+            old.append(rest); last = 'o'
+        elif c == b'+':
+            new.append(rest); last = 'n'
+        elif c == b'\\':
+            if last in ('o', 'b') and old:
+                old[-1] = old[-1][:-1]
+            if last in ('n', 'b') and new:
+                new[-1] = new[-1][:-1]
+        else:
+            return None
+    g = lambda x: 1 if x is None else int(x)
+    return (int(m.group(1)), g(m.group(2)), int(m.group(3)), g(m.group(4)), old, new)
+
+
+def rej_shape_job(job):
+    hunks, threads = job
+    text = b'--- a/f\n+++ b/f\n' + b''.join(hunks)
+    w = ws.mkws('rejshape')
+    try:
+        ws.write(w, 'f', b'nothing that\nany hunk\nwould match\n')
+        ws.write(w, 'patches/p1.patch', text)
+        ws.write(w, 'series', b'p1.patch\n')
+        rc, so, se = ws.push(w, ['-q', '-a', '--threads', str(threads)])
+        snap = ws.snapshot(w)
+    finally:
+        ws.rmws(w)
+    if ws.crashed(rc):
+        return [('crash', 'exit status %s: %s' % (rc, se.strip()[-300:]))]
+    probs = []
+    if rc != 1:
+        probs.append(('rej-set', 'a patch none of whose hunks can apply gives exit status %d' % rc))
+    rej = snap.get('f.rej')
+    if rej is None:
+        return probs + [('rej-set', 'no f.rej for a patch none of whose hunks apply')]
+    header, got = scen.split_rej(rej[0])
+    if len(got) != len(hunks):
+        return probs + [('rej-content', 'f.rej holds %d hunks, the patch has %d failing ones' % (len(got), len(hunks)))]
+    for i, (g, h) in enumerate(zip(got, hunks), 1):
+        a, b = rej_sides(g), rej_sides(h)
+        if a is None:
+            probs.append(('rej-content', 'hunk %d of f.rej is not a hunk: %r' % (i, g[:200])))
+        elif a != b:
+            what = [n for n, x, y in zip(('old start', 'old count', 'new start', 'new count', 'old side', 'new side'), a, b) if x != y]
+            d = next((k for k, (x, y) in enumerate(zip(a[5] + [None], b[5] + [None])) if x != y), None) if 'new side' in what else \
+                next((k for k, (x, y) in enumerate(zip(a[4] + [None], b[4] + [None])) if x != y), None)
+            probs.append(('rej-content', 'hunk %d of f.rej is not the failed hunk of the patch: %s differ%s (hunk with %d old / %d new lines)'
+                          % (i, ', '.join(what), '' if d is None else ' from line %d of that side' % (d + 1), len(b[4]), len(b[5]))))
+    return probs
+
+
+def rej_shapes(res, tier, rnd):
+    sizes = [0, 1, 2, 3, 31, 32, 33, 63, 64, 65, 66, 127, 128, 129, 200, 257] if tier == 'quick' else [0, 1, 2, 3, 4, 7, 8, 9, 15, 16, 17, 31, 32, 33, 63, 64, 65, 66, 100, 127, 128, 129, 200, 255, 256, 257, 511, 512, 513, 1025]
+    jobs = []
+    n = 0
+    for nd in sizes:
+        for ni in sizes:
+            if nd + ni == 0:
+                continue
+            for style in ('distinct', 'shared-late', 'repeats'):
+                for pre, post in ((0, 0), (3, 3), (2, 0), (0, 1)):
+                    n += 1
+                    if nd == 0 and pre + post == 0:
+                        continue        # a bare insertion has nothing that could fail to match
+                    if tier == 'quick' and (n + seed()) % 4 and not (63 <= nd <= 66 and 63 <= ni <= 66):
+                        continue
+                    if style == 'distinct':
+                        dl = [b'old %d\n' % i for i in range(nd)]; il = [b'new %d\n' % i for i in range(ni)]
+                    elif style == 'shared-late':
+                        # one line common to both sides, far inside the change (the writer turns it into context)
+                        dl = [b'old %d\n' % i for i in range(nd)]; il = [b'new %d\n' % i for i in range(ni)]
+                        if nd > 2 and ni > 2:
+                            dl[nd - 2] = b'common\n'; il[ni - 2] = b'common\n'
+                    else:
+                        dl = [b'x\n' if i % 3 else b'y %d\n' % i for i in range(nd)]; il = [b'x\n' if i % 2 else b'y %d\n' % (i + 1) for i in range(ni)]
+                    start = 5 + rnd.randrange(50)
+                    pl = [b'pre %d\n' % i for i in range(pre)]; sl = [b'post %d\n' % i for i in range(post)]
+                    oc, nc = pre + nd + post, pre + ni + post
+                    h = (b'@@ -%d,%d +%d,%d @@\n' % (start if oc else start - 1, oc, start if nc else start - 1, nc)
+                         + b''.join(b' ' + l for l in pl) + b''.join(b'-' + l for l in dl) + b''.join(b'+' + l for l in il) + b''.join(b' ' + l for l in sl))
+                    if style == 'shared-late' and nd > 2 and ni > 2:
+                        # spelled the way diff would: the common line is context
+                        h = (b'@@ -%d,%d +%d,%d @@\n' % (start, oc, start, nc) + b''.join(b' ' + l for l in pl)
+                             + b''.join(b'-' + l for l in dl[:nd - 2]) + b''.join(b'+' + l for l in il[:ni - 2]) + b' common\n'
+                             + b'-' + dl[-1] + b'+' + il[-1] + b''.join(b' ' + l for l in sl))
+                    jobs.append(([h], 1 + n % 3))
+    # two failing hunks in one file patch: both are kept, in order
+    for k in range(0, len(jobs) - 1, 7):
+        jobs.append((jobs[k][0] + [re.sub(rb'^@@ -(\d+),(\d+) \+(\d+),(\d+)', lambda m: b'@@ -%d,%s +%d,%s' % (int(m.group(1)) + 2000, m.group(2), int(m.group(3)) + 2000, m.group(4)), jobs[k + 1][0][0])], 2))
+    with Pool(12) as pool:
+        outs = pool.map(rej_shape_job, jobs, chunksize=8)
+    for (hunks, threads), probs in zip(jobs, outs):
+        for cat, msg in probs:
+            res.violation(cat, '%s: %s (threads %d)' % (WHAT.get(cat, cat), msg, threads), {'patch': (b'--- a/f\n+++ b/f\n' + b''.join(hunks)).decode('latin-1'), 'f': 'nothing that\nany hunk\nwould match\n', 'threads': threads})
+    res.cov['parts']['reject-hunk-shapes'] = {'pushes': len(jobs), 'sizes_per_side': sizes, 'styles': ['distinct', 'shared-late', 'repeats'], 'context': ['0/0', '3/3', '2/0', '0/1']}
+    res.cov['traces_validated_against_impl'] += len(jobs)
+    res.cov['evaluations'] += len(jobs)
+    return len(jobs)
 
 
 def check(prop, tier):
